@@ -294,8 +294,14 @@ def run_hyp_part(mod, part, strat, n, seedval, stats, found, exclude, shrink=Tru
         try:
             test()
             break
-        except Violation:
+        except BaseException as e:  # noqa
+            # a Violation, or Hypothesis' Flaky/FlakyFailure wrapper when the failure depends on state that outlives a case
+            # (e.g. class-level caches of the code under test): the violation that was observed is recorded either way
+            if state["last"] is None or isinstance(e, (KeyboardInterrupt, SystemExit)):
+                raise
             case, v = state["last"]
+            if not isinstance(e, Violation):
+                v = Violation(v.sig, v.msg + " [not reproducible from a fresh state on every replay: depends on state kept between cases]", v.detail)
             found[v.sig] = (_minimised(mod, case, v), v)
             remaining -= state["count"]
             rounds += 1
